@@ -1,4 +1,5 @@
 import NopModel.Lemmas.Io
+import NopModel.Lemmas.ConfDec
 /-! C16 — BoundedReader / BoundedWriter confine all traffic to their byte limit.
 All statements hold for every limit `< 2^64`, every call sequence, every size (up to
 2^64-1 and beyond), and every wrapped reader/writer — including one that fails at
@@ -97,3 +98,18 @@ example : ({ inner := (⟨[], []⟩ : Scripted), size := 10, index := 0 } : Boun
   ⟨Nat.zero_le _, by simp [W]⟩
 
 end Nop.Io
+
+namespace Nop
+
+/-- **The deserializer itself stays inside every enclosing BoundedReader**: for every type,
+destination, source and stack of budgets (table-entry frames, user-supplied bounded readers),
+a successful `Read` consumed no more than any of the budgets, charged each of them exactly what
+it consumed, and would have succeeded identically had the outer budgets not been there. -/
+theorem C16_decoder_confined (t : Ty) (prior : Val) (s : Src) (a : Val) (s' : Src)
+    (h : decInto t prior s = (.ok a, s')) :
+    ∃ c, s'.bytes = s.bytes.drop c ∧ (∀ b ∈ s.frames, c ≤ b) ∧ s'.frames = s.frames.map (· - c) ∧
+      ∀ I O, s.frames = I ++ O → decInto t prior (s.withFrames I) = (.ok a, s'.withFrames (I.map (· - c))) := by
+  obtain ⟨c, _, hb, hf, hfr, hl⟩ := conf_decInto t prior s a s' h
+  exact ⟨c, hb, (framesOk_iff c s.frames).1 hf, hfr, hl⟩
+
+end Nop
